@@ -113,6 +113,11 @@ func genRecs(t *rapid.T, format string, large bool) []Rec {
 			w = append([]string{fmt.Sprintf(`{"count":%d,"k":"v>@+"}`, i)}, w...)
 		}
 		r.Def = strings.Join(w, " ")
+		if strings.HasPrefix(r.Def, "{") && !strings.HasPrefix(r.Def, `{"count":`) {
+			// a title starting with '{' announces JSON annotations: anything else there is
+			// refused by the header parser (not a well-formed obitools title)
+			r.Def = "x" + r.Def
+		}
 		r.Seq = genSeqText(t, "seq", rapid.IntRange(1, maxLen).Draw(t, "seqlen"), true)
 		if format == "fastq" {
 			r.Qual = make([]int, len(r.Seq))
